@@ -38,6 +38,30 @@ def items(tier, seed):
                   'forever': [True]},
         top_open={'window': [1]} if th else {}, nest_open={},
         extra=_base.X_THASH, k=1, bound=3 if th else 2)
+    # jobs that answer the cancellation at expiry by raising their own
+    # exception; exceptions that do not derive from Exception
+    yield from spaces.mk(
+        ['flat23', 'nest22'], force='product',
+        fargs={'parts': [
+            ('each_job', {'mods': [('cx', True), ('critical', True),
+                                   ('dur', 3)]}),
+            ('mods', {'alts': TOPS}),
+            ('mods', {'alts': [[('top', 'timeout', 1)],
+                               [('n', 'timeout', 1)],
+                               [('n', 'timeout', 1), ('n', 'critical', True)]
+                               ]})]},
+        job_open={'dur': [0, 2], 'out': ['raise']}, top_open={},
+        nest_open={}, k=1 if th else 0, bound=2)
+    yield from spaces.mk(
+        ['flat23'], force='product',
+        fargs={'parts': [
+            ('outcomes', {'values': [[('out', 'ret')],
+                                     [('out', 'raise_base')],
+                                     [('out', 'raise_base'),
+                                      ('critical', True)]]}),
+            ('mods', {'alts': TOPS})]},
+        job_open={'dur': [2]}, top_open={'timeout': [2]}, nest_open={},
+        k=1 if th else 0, bound=2)
     # the verdict must not depend on how the shutdown phase goes
     SLOW = [[('a', 'sd', 3), ('top', 'sdt', 0)], [('a', 'sd', 3)],
             [('x', 'sd', 3), ('n', 'sdt', 0)],
